@@ -639,6 +639,22 @@ def merge(c, a, b):
         return SBytes([merge(c, x, y) for x, y in zip(a.elems, b.elems)])
     if isinstance(a, PList) and isinstance(b, PList):
         return PList(guarded=merge_items(c, a.items, b.items))
+    if isinstance(a, PDict) and isinstance(b, PDict):
+        out = PDict()
+        keys = list(a.keys()) + [k for k in b.keys() if k not in a.d]
+        nc = z3.Not(c)
+        for k in keys:
+            ea, eb = a.d.get(k), b.d.get(k)
+            if ea is not None and eb is not None:
+                ga = z3.BoolVal(True) if ea[0] is True else ea[0]
+                gb = z3.BoolVal(True) if eb[0] is True else eb[0]
+                g = z3.simplify(z3.If(c, ga, gb))
+                out.set_entry(k, True if z3.is_true(g) else g, merge(c, ea[1], eb[1]))
+            elif ea is not None:
+                out.set_entry(k, _and(c, ea[0]), ea[1])
+            else:
+                out.set_entry(k, _and(nc, eb[0]), eb[1])
+        return out
     raise MergeFail('cannot merge %r / %r' % (type(a).__name__, type(b).__name__))
 
 
